@@ -221,16 +221,14 @@ def run(p, report, tier):
             avail_names.add(n.value.elts[2].id)
     if not avail_names:
         raise AnalysisError("_transform_cand_annot: availability result not found")
-    bool_names = {"annotators", "unlbd_pairs"}
+    unl_names = {t.id for n in ast.walk(tc.node) if isinstance(n, ast.Assign) and isinstance(n.value, ast.Call)
+                 and c01.callname(n.value) == "is_unlabeled" for t in n.targets if isinstance(t, ast.Name)}
+    bool_names = {"annotators"} | unl_names
     # annotators (2-d) is validated with dtype=bool in _validate_data
     ann_ok = any(isinstance(n, ast.Assign) and isinstance(n.value, ast.Call) and c01.callname(n.value) == "check_array"
                  and any(k.arg == "dtype" and ast.unparse(k.value) == "bool" for k in n.value.keywords)
                  and any(isinstance(t, ast.Name) and t.id == "annotators" for t in n.targets) for n in ast.walk(vd.node))
     report.add("R7.2", vd.qual, "2-d annotators validated as boolean", f"{vd.file}:{vd.node.lineno}", ann_ok)
-    unl_ok = any(isinstance(n, ast.Assign) and isinstance(n.value, ast.Call) and c01.callname(n.value) == "is_unlabeled"
-                 and any(isinstance(t, ast.Name) and t.id == "unlbd_pairs" for t in n.targets) for n in ast.walk(tc.node))
-    if not unl_ok:
-        bool_names.discard("unlbd_pairs")
     for n in ast.walk(tc.node):
         if isinstance(n, ast.Assign) and any(isinstance(t, ast.Name) and t.id in avail_names for t in n.targets):
             okb = is_bool_def(n.value, bool_names)
@@ -265,28 +263,55 @@ def run(p, report, tier):
                 full = isinstance(sl, ast.Tuple) and isinstance(sl.elts[0], ast.Slice) and sl.elts[0].lower is None \
                     and sl.elts[0].upper is None
                 report.add("R7.3", f.qual, f"mask `{norm_stmt(n, 60)}` covers all later steps", f"{f.file}:{n.lineno}", full)
-    for f, avail in ((g, "A"), (ie, "A_cand")):
+    def tca_roles(fnode):
+        """(candidates, mapping, availability) names bound from _transform_cand_annot(...)"""
+        for n in ast.walk(fnode):
+            if isinstance(n, ast.Assign) and isinstance(n.value, ast.Call) and c01.callname(n.value) == "_transform_cand_annot" \
+                    and isinstance(n.targets[0], ast.Tuple) and len(n.targets[0].elts) == 3 \
+                    and all(isinstance(e, ast.Name) for e in n.targets[0].elts):
+                return tuple(e.id for e in n.targets[0].elts)
+        return (None, None, None)
+    ie_roles = tca_roles(ie.node)
+    sq_roles = tca_roles(sq.node)
+    if ie_roles[2] is None or sq_roles[1] is None:
+        raise AnalysisError("C07: _transform_cand_annot result unpacking vanished")
+    gparams = [a for a in g.params() if a != "self"]
+    for f, avail in ((g, gparams[0] if gparams else "A"), (ie, ie_roles[2])):
         tree = FuncTree(f.node)
         masks = [n for n in ast.walk(f.node) if isinstance(n, ast.Assign) and c01.is_nan_expr(n.value)
                  and isinstance(n.targets[0], ast.Subscript) and ("~" + avail) in ast.unparse(n.targets[0].slice).replace(" ", "")]
         report.add("R7.3", f.qual, "unavailable pairs are set to NaN", f"{f.file}:{f.node.lineno}", bool(masks),
                    detail=norm_stmt(masks[0], 60) if masks else "no NaN store at ~" + avail)
     # R7.5 translation in SingleAnnotatorWrapper.query and IntervalEstimationThreshold.query
-    tr = [n for n in ast.walk(sq.node) if isinstance(n, ast.Assign) and isinstance(n.targets[0], ast.Subscript)
-          and ast.unparse(n.targets[0]).replace(" ", "") == "indices[:,0]"]
-    ok_tr = bool(tr) and all("mapping[" in ast.unparse(n.value) for n in tr)
-    col = [n for n in ast.walk(sq.node) if isinstance(n, ast.Assign) and isinstance(n.targets[0], ast.Subscript)
-           and ast.unparse(n.targets[0]).replace(" ", "") == "indices[:,1]"]
-    ok_col = bool(col) and all("mapping" not in ast.unparse(n.value) for n in col)
+    mp = sq_roles[1]
+    ret_names = {x.id for n in ast.walk(sq.node) if isinstance(n, ast.Return) and n.value is not None
+                 for x in ast.walk(n.value) if isinstance(x, ast.Name)}
+
+    def col_stores(k):
+        out = []
+        for n in ast.walk(sq.node):
+            if isinstance(n, ast.Assign) and isinstance(n.targets[0], ast.Subscript) and isinstance(n.targets[0].value, ast.Name) \
+                    and n.targets[0].value.id in ret_names and isinstance(n.targets[0].slice, ast.Tuple) \
+                    and len(n.targets[0].slice.elts) == 2 and isinstance(n.targets[0].slice.elts[0], ast.Slice) \
+                    and isinstance(n.targets[0].slice.elts[1], ast.Constant) and n.targets[0].slice.elts[1].value == k:
+                out.append(n)
+        return out
+    tr = col_stores(0)
+    ok_tr = bool(tr) and all(any(isinstance(x, ast.Subscript) and isinstance(x.value, ast.Name) and x.value.id == mp
+                                 for x in ast.walk(n.value)) for n in tr)
+    col = col_stores(1)
+    ok_col = bool(col) and all(mp not in names_in(n.value) for n in col)
     report.add("R7.5", sq.qual, "sample column translated through mapping, annotator column copied", f"{sq.file}:{sq.node.lineno}",
                ok_tr and ok_col and len(tr) == len(col))
     stree = FuncTree(sq.node)
+    inner_res = {t.id for n in ast.walk(sq.node) if isinstance(n, ast.Assign) and isinstance(n.value, ast.Call)
+                 and c01.callname(n.value) == "_query_annotators" for t in n.targets if isinstance(t, ast.Name)}
     none_ret = [n for n in ast.walk(sq.node) if isinstance(n, ast.Return) and isinstance(n.value, ast.Name)
-                and n.value.id == "re_val"]
+                and n.value.id in inner_res]
     guarded = False
     for n in none_ret:
-        for (s, owner, field, idx) in stree.ancestors(n):
-            if isinstance(owner, ast.If) and field == "body" and ast.unparse(owner.test) == "mapping is None":
+        for (s_, owner, field, idx) in stree.ancestors(n):
+            if isinstance(owner, ast.If) and field == "body" and ast.unparse(owner.test) == f"{mp} is None":
                 guarded = True
     report.add("R7.5", sq.qual, "untranslated result is returned only when there is no mapping", f"{sq.file}:{sq.node.lineno}",
                guarded or not none_ret)
